@@ -34,6 +34,13 @@ def cases(tier, seed):
     for i in range(0, len(c02.HOSTILE), 5):
         for fmt in ("default", "json"):
             out.append({"mode": "binary", "names": c02.HOSTILE[i:i + 5], "fmt": fmt})
+    # the environment of `group` (colour switches, terminal description, width, time zone, locale) changes nothing in a
+    # report that is piped to a dedupe command
+    for env in ({"CLICOLOR_FORCE": "1"}, {"CLICOLOR": "1", "TERM": "xterm-256color", "COLORTERM": "truecolor"}, {"NO_COLOR": "1"},
+                {"TERM": "dumb", "COLUMNS": "20", "LINES": "5"}, {"TZ": "Asia/Kolkata"}, {"LC_ALL": "C", "LANG": "C"},
+                {"LC_ALL": "C.UTF-8"}, {"RUST_BACKTRACE": "full", "RUST_LOG": "trace"}):
+        for fmt in ("default", "json"):
+            out.append({"mode": "binary", "names": c02.HOSTILE[:5], "fmt": fmt, "env": env})
     # the report file of an earlier, longer run is written again (`group -o FILE` twice): what the dedupe commands
     # read back is the second report and nothing else
     for fmt in ("default", "json"):
@@ -130,6 +137,19 @@ def evaluate_binary(case):
             tree.append({"p": "e%d/%s" % (i, name), "k": "file", "c": ["lit", "content-%d" % i]})
         C.make_tree(sc.tree, tree)
         report = D.make_report(sc, [], ["."], fmt=case["fmt"])
+        if case.get("env"):
+            import re
+            plain = report
+            report = D.make_report(sc, [], ["."], fmt=case["fmt"], env_extra=case["env"])
+            strip = lambda r: re.sub(rb'(# Timestamp: [^\n]*|"timestamp": *"[^"]*")', b"", r)
+            if strip(plain) != strip(report):
+                a, b_ = strip(plain), strip(report)
+                i = next((k for k in range(min(len(a), len(b_))) if a[k] != b_[k]), min(len(a), len(b_)))
+                viol.append({"kind": "report_depends_on_environment", "format": case["fmt"], "what": "binary_group_report",
+                             "detail": "group run with %r: report differs from the one of a plain run at byte %d: %r vs %r" % (
+                                 case["env"], i, b_[max(0, i - 20):i + 30], a[max(0, i - 20):i + 30])})
+                return {"violations": viol, "evaluations": 1, "counters": {"nontrivial": 1, "binary_cases": 1, "binary_paths": 0},
+                        "outcome": "binary", "sample": {"case": {"mode": "binary", "fmt": case["fmt"], "env": case["env"]}}}
         rep = D.report_groups(report)
         expected = set()
         for g in rep.groups:
